@@ -77,6 +77,14 @@ func (e *Explorer) runOne(prefix []int, debug bool) (*Exec, error) {
 // Replay runs one prefix with tracing on and returns the execution and the oracle verdict.
 func (e *Explorer) Replay(prefix []int) (*Exec, error) { return e.runOne(prefix, true) }
 
+// Rerun runs one prefix again without tracing (messages are identical to the exploring run).
+func (e *Explorer) Rerun(prefix []int) (*Exec, error) {
+	saved := e.cache
+	e.cache = nil
+	defer func() { e.cache = saved }()
+	return e.runOne(prefix, false)
+}
+
 // Run explores everything within the bound. It returns the first oracle failure (also kept in Fail*),
 // an *InfraError for machinery failures, or nil.
 func (e *Explorer) Run() error {
